@@ -40,6 +40,27 @@ def register(reg):
                       'self.cst == old_self.cst', 'self.cursor == old_self.cursor', 'self.cutseen == old_self.cutseen',
                       'self.last_node == old_self.last_node', 'self.alerts == old_self.alerts'])
 
+    # define(): the names a rule may bind are pre-bound -- list names to [], the others to None -- unless they are bound already;
+    # bindings that exist are kept (C01, docs/ast.rst)
+    LK = 'any(uf_safekey(strval(list_keys[j])) == s for j in range(0, len(list_keys)))'
+    SK = 'any(uf_safekey(strval(keys[j])) == s for j in range(0, len(keys)))'
+    STR = ['all(isinstance(keys[j], str) for j in range(0, len(keys)))', 'all(isinstance(list_keys[j], str) for j in range(0, len(list_keys)))']
+    REST = ['self.cst == old_self.cst', 'self.cursor == old_self.cursor', 'self.cutseen == old_self.cutseen',
+            'self.last_node == old_self.last_node', 'self.alerts == old_self.alerts']
+    contract(reg, f'{F}:ParseState.define#lists', ['C01', 'C02'], {'self': 'Frame', 'keys': 'seq', 'list_keys': 'seq'}, ret='any', modifies=['self'],
+             requires=STR,
+             ensures=[('property', f'forall_keys(self.ast, lambda s: self.ast.dkeys[s] == (old_self.ast.dkeys[s] or {LK} or {SK}))'),
+                      ('property', f'forall_keys(self.ast, lambda s: implies(old_self.ast.dkeys[s], self.ast.dvals[s] == old_self.ast.dvals[s]))'),
+                      ('property', f'forall_keys(self.ast, lambda s: implies(not old_self.ast.dkeys[s] and {LK}, self.ast.dvals[s] == []))'),
+                      ('property', f'forall_keys(self.ast, lambda s: implies(not old_self.ast.dkeys[s] and not {LK} and {SK}, self.ast.dvals[s] is None))'),
+                      *REST])
+    contract(reg, f'{F}:ParseState.define#nolist', ['C01', 'C02'], {'self': 'Frame', 'keys': 'seq', 'list_keys': 'None'}, ret='any', modifies=['self'],
+             requires=STR[:1], defaults={'list_keys': None},
+             ensures=[('property', f'forall_keys(self.ast, lambda s: self.ast.dkeys[s] == (old_self.ast.dkeys[s] or {SK}))'),
+                      ('property', f'forall_keys(self.ast, lambda s: implies(old_self.ast.dkeys[s], self.ast.dvals[s] == old_self.ast.dvals[s]))'),
+                      ('property', f'forall_keys(self.ast, lambda s: implies(not old_self.ast.dkeys[s] and {SK}, self.ast.dvals[s] is None))'),
+                      *REST])
+
     # --- ParseStateStack
     contract(reg, f'{F}:ParseStateStack.undo', P, {'self': 'States'}, ret='Frame', modifies=['self.state_stack'],
              ensures=[('property', 'result == old_self.state_stack[-1]'),
